@@ -33,6 +33,8 @@ def run(ctx):
     ctx.guarded('R09e', IM + 'add_cas_block', lambda: r09e(ctx))
     ctx.rule('R09f', 'truncated-prefix search: the probe loop moves its lower bound only when the probed key is smaller than the target and its upper bound only when it is >= the target, to the probed position; equal keys before the probe stay inside the window')
     ctx.guarded('R09f', 'mdb_shard::interpolation_search::search_on_sorted_u64s', lambda: r09f(ctx))
+    ctx.rule('R09g', 'shard writers advance the byte position they record in the footer (or report to their caller) by exactly what they wrote: the count returned by each write is added, or a loop of uncounted writes is matched by one `+= trips * record size` (keyed-shard exporter, the two section writers of serialize_from, MDBFileInfo::serialize)')
+    ctx.guarded('R09g', 'position accounting', lambda: r09g(ctx))
 
 
 def r09a(ctx):
@@ -554,3 +556,28 @@ def r09f(ctx):
         eq_in = [q for (p, q), v in ref2.items() if 'E' in v]
         skip = [x_ for (x_, _) in lat2 if x_ in a.cfg.reach([q for (p, q), v in ref2.items() if v == {'E'}], cut_edges={e_ for w in rec for e_ in a.cfg.out_edges(w)} | set(lat2))]
         ctx.check(bool(eq_in) and not skip, 'R09f', fn, 'scan records all', a.loc(r2), 'an entry with an equal key is always recorded before the scan moves on')
+
+
+def r09g(ctx):
+    """same rule as C10-R10d, for the writers whose accounting is of the decidable forms; serialize_from's three lookup
+    tables are written from zipped key/value vectors and accounted as 8*keys.len() + 4*vals.len(), which is right only
+    because the two vectors have equal length — a relational fact this rule does not decide (not claimed)."""
+    from . import posacct
+    posacct.learn_sizes(ctx.F)
+    SFMT = 'mdb_shard::shard_format::MDBShardInfo::'
+    tot = dict(direct=0, bulk=0)
+    for fn, acc, fl in ((SFMT + 'export_as_keyed_shard_impl', 'byte_pos', 12), (SFMT + 'convert_and_save_file_info', 'bytes_written', 2),
+                        (SFMT + 'convert_and_save_cas_info', 'bytes_written', 3), ('mdb_shard::file_structs::MDBFileInfo::serialize', 'bytes_written', 4)):
+        a = an(ctx.F.body(fn))
+        wp = [i for i in range(1, a.body['argc'] + 1) if a.body['locals'][i].get('ty', '').startswith('&mut W')]
+        r = posacct.Acct(a, lambda z, wp=wp: z[0] == 'param' and z[1] in wp, acc).run()
+        n = r.stats['direct'] + r.stats['bulk']
+        tot['direct'] += r.stats['direct']
+        tot['bulk'] += r.stats['bulk']
+        ctx.check(n >= fl, 'R09g', fn, 'writes', '-', '%d accounted writes' % n, 'cannot establish: found only %d accounted writes through the writer parameter (confirmed by reading: %d)' % (n, fl))
+        ctx.check(not r.viol, 'R09g', fn, 'position', a.loc(r.viol[0][0], r.viol[0][1]) if r.viol else '-',
+                  '%d writes add their returned count, %d are covered by a matching bulk update of their loop' % (r.stats['direct'], r.stats['bulk']), r.viol[0][2] if r.viol else None)
+        for v in r.viol[1:]:
+            ctx.check(False, 'R09g', fn, 'position', a.loc(v[0], v[1]), '', v[2])
+    ctx.floor('R09g', 'writes whose returned count is added', tot['direct'], 15)
+    ctx.floor('R09g', 'uncounted loop writes matched by a bulk update', tot['bulk'], 7)
